@@ -74,14 +74,14 @@ pub fn cases() -> Vec<Case> {
         for (t1, v1) in &uni {
             for (t2, v2) in &uni {
                 let decl = format!("f := (c: mut ({t1}), b: {t2}) -> any {{ c {op} b; return c }};");
-                let calls = product(v1, v2).into_iter().map(|(x, y)| format!("{decl} f(mut ({t1}) {x}, {y})")).collect();
+                let calls = product(v1, v2).into_iter().map(|(x, y)| format!("{decl} f(mut {t1} {x}, {y})")).collect();
                 out.push(Case { label: format!("assign:{op}"), decl, calls });
             }
         }
     }
     let extra: Vec<(&'static str, Vec<&'static str>)> = vec![
         ("mut int", vec!["mut 5"]),
-        ("mut (int|string)", vec!["mut (int|string) 5", "mut (int|string) \"s\""]),
+        ("mut (int|string)", vec!["mut int|string 5", "mut int|string \"s\""]),
         ("mut int|int", vec!["mut 5", "7"]),
         ("() -> (bool, int)", vec!["[1, 2]~", "[]~ ? int"]),
         ("() -> (bool, int|string)", vec!["[1, \"a\"]~"]),
@@ -137,6 +137,23 @@ pub fn cases() -> Vec<Case> {
                 out.push(Case { label: format!("iter-op:{op}"), decl, calls });
             }
         }
+    }
+    // `it ? T`: the filter type is printed into the helper's source text and read back - every type shape,
+    // over one array holding values of all of them
+    let elements = "[mut int|string 1, mut 2, mut int|string \"c\", mut \"d\", \"x\", 3, 2.5, true, (), [1], [1, \"a\"], [\"a\"], [mut int|float 1], \
+                    (1, \"a\"), (\"a\", 1), (1, 2), () -> int { return 1 }, () -> int|string { return \"s\" }, (x: int) -> int|string { return x }, \
+                    struct{a := 1}, struct{a := \"s\"}, struct{a := 1, b := 2}, mut [1, \"a\"], mut [int|string] [1], [[1, \"a\"]], mut mut 1]";
+    for t in [
+        "int", "string", "float", "bool", "()", "any", "int|string", "mut int", "mut string", "mut (int|string)", "mut int|string", "mut (int|string)|int",
+        "[int]", "[string]", "[int|string]", "[any]", "[mut (int|float)]", "[mut int]", "[[int|string]]", "[[int]]",
+        "() -> int", "() -> (int|string)", "(int) -> (int|string)", "(int) -> int", "() -> any",
+        "(int, string)", "(int|string, int|string)", "(int, int)", "(any, any)",
+        "struct{a: int}", "struct{a: int|string}", "struct{a: int, b: int}", "struct{}",
+        "mut [int|string]", "mut [int]", "mut mut int", "mut any", "[int]|mut int", "(int, string)|mut (int|string)",
+    ] {
+        let decl = format!("f := (it: () -> (bool, any)) -> [{t}] {{ return (it ? {t}) $] }};");
+        let calls = vec![format!("{decl} f({elements}~)")];
+        out.push(Case { label: "type-filter".into(), decl, calls });
     }
     out
 }
